@@ -46,8 +46,10 @@ var scalars = []reflect.Type{
 	reflect.TypeOf(""), reflect.TypeOf(false), reflect.TypeOf(int(0)), reflect.TypeOf(int8(0)), reflect.TypeOf(int16(0)),
 	reflect.TypeOf(int32(0)), reflect.TypeOf(int64(0)), reflect.TypeOf(uint(0)), reflect.TypeOf(uint8(0)),
 	reflect.TypeOf(uint16(0)), reflect.TypeOf(uint32(0)), reflect.TypeOf(uint64(0)), reflect.TypeOf(uintptr(0)), tDuration,
-	reflect.TypeOf(rty.NLevel(0)), reflect.TypeOf(rty.NName("")), reflect.TypeOf(rty.NCount(0)),
+	reflect.TypeOf(float32(0)), reflect.TypeOf(float64(0)), reflect.TypeOf(complex64(0)), reflect.TypeOf(complex128(0)),
 }
+
+func init() { scalars = append(scalars, rty.NamedScalars()...) } // a declared type of every scalar kind
 
 var intSlices = []reflect.Type{
 	reflect.TypeOf([]int(nil)), reflect.TypeOf([]int8(nil)), reflect.TypeOf([]int16(nil)), reflect.TypeOf([]int32(nil)),
@@ -254,7 +256,8 @@ func canonDefault(fi flagInfo) (string, bool) {
 		x, err := time.ParseDuration(d)
 		return fmt.Sprintf("(VInt (%d)%%Z)", int64(x)), err == nil
 	case strings.HasSuffix(vt, "Complex128Var") || strings.HasSuffix(vt, "Complex64Var") || vt == "p:complex128" || vt == "p:complex64":
-		return "(VOpaque 1)", true
+		c, err := strconv.ParseComplex(d, 128)
+		return fmt.Sprintf("(VList [VFloat (%d)%%Z; VFloat (%d)%%Z])", fbits(real(c)), fbits(imag(c))), err == nil
 	case strings.HasSuffix(vt, "MarshalWrapper") || strings.HasPrefix(vt, "p:*rty.") || vt == "p:*net.IP":
 		inner := fi.inner
 		if inner == "" {
@@ -327,6 +330,12 @@ func canonDefault(fi flagInfo) (string, bool) {
 // ---- occurrence texts by flag value type ----
 
 func genInt(r *coqfmt.Rng, signed bool) string {
+	if r.Chance(1, 10) { // the zero value, given explicitly
+		if signed {
+			return coqfmt.Pick(r, []string{"0", "-0", "+0", "00", "0x0"})
+		}
+		return coqfmt.Pick(r, []string{"0", "00", "0x0", "0b0"})
+	}
 	widths := []uint{8, 16, 32, 64}
 	bits := coqfmt.Pick(r, widths)
 	var mag uint64
@@ -387,6 +396,10 @@ func genInt(r *coqfmt.Rng, signed bool) string {
 	return digits
 }
 
+// decimal texts whose value times 1024 is an integer (the model carries floats that way)
+var floatTexts = []string{"0", "0.0", "-0", "1", "-2", "1.5", "-0.25", "3.125", "100", "1e2", ".5", "1.", "+2", "25e-2", "1E3", "2.5e1"}
+var complexTexts = []string{"0", "(1+2i)", "1.5-0.25i", "3", "2i", "-2i", "1e2+1e1i", "-1-1i", "(0+0i)", "+1.5+.5i"}
+
 var simpleWords = []string{"a", "b", "ab", "x1", "k", "v", "foo", "bar", "z9", "q"}
 
 func genCSV(r *coqfmt.Rng) string {
@@ -435,6 +448,16 @@ func genText(r *coqfmt.Rng, fi flagInfo) (string, bool) {
 		return genInt(r, true), true
 	case vt == "*flag.uintValue" || vt == "*flag.uint64Value" || strings.HasPrefix(vt, "p:uint"):
 		return genInt(r, false), true
+	case vt == "*flag.float64Value" || vt == "p:float64" || vt == "p:float32":
+		if r.Chance(1, 6) {
+			return coqfmt.Pick(r, []string{"", "x", "1..2", "--1", "1e", "1e400", "1e39", "-4e38"}), true
+		}
+		return coqfmt.Pick(r, floatTexts), true
+	case strings.HasSuffix(vt, "Complex128Var") || strings.HasSuffix(vt, "Complex64Var") || vt == "p:complex128" || vt == "p:complex64":
+		if r.Chance(1, 6) {
+			return coqfmt.Pick(r, []string{"", "i", "1+i", "(1+2i", "x", "1e39+1i", "1-4e38i"}), true
+		}
+		return coqfmt.Pick(r, complexTexts), true
 	case vt == "*flag.durationValue" || vt == "p:duration":
 		if r.Chance(1, 8) {
 			return coqfmt.Pick(r, []string{"5", "1x", "", "h"}), true
@@ -470,7 +493,33 @@ func genText(r *coqfmt.Rng, fi flagInfo) (string, bool) {
 		strings.HasSuffix(vt, "MapStringStringSliceFlag") || vt == "p:*map[string][]string":
 		return genKVs(r), true
 	}
-	return "", false // floats, complex: text parsing not modelled
+	return "", false
+}
+
+func hasHugeFloat(v reflect.Value) bool {
+	switch v.Kind() {
+	case reflect.Float32, reflect.Float64:
+		f := v.Float()
+		return f > 1e15 || f < -1e15
+	case reflect.Complex64, reflect.Complex128:
+		c := v.Complex()
+		return real(c) > 1e15 || real(c) < -1e15 || imag(c) > 1e15 || imag(c) < -1e15
+	case reflect.Ptr, reflect.Interface:
+		return !v.IsNil() && hasHugeFloat(v.Elem())
+	case reflect.Struct:
+		for i := 0; i < v.NumField(); i++ {
+			if hasHugeFloat(v.Field(i)) {
+				return true
+			}
+		}
+	case reflect.Slice, reflect.Array:
+		for i := 0; i < v.Len(); i++ {
+			if hasHugeFloat(v.Index(i)) {
+				return true
+			}
+		}
+	}
+	return false
 }
 
 func valueSafe(src source, PT reflect.Type) (v reflect.Value, err error, panicked bool) {
@@ -515,7 +564,8 @@ func run(raw json.RawMessage) driver.Result {
 			}
 			return fmt.Sprintf("%s-%d", coqfmt.Pick(r, []string{"opt", "Flag", "x_y", "some-val"}), r.Intn(1000))
 		},
-		Embedded: true, Skipped: true, SingleLetterNum: 1, SingleLetterDen: 10}
+		Embedded: true, Skipped: true, SingleLetterNum: 1, SingleLetterDen: 10,
+		OddTags: []string{"_", "x_", "_x", "__", "x__y"}, OddTagNum: 1, OddTagDen: 40}
 	if r.Chance(1, 6) {
 		o.AliasKeys = []string{"dials", srcTag}
 		o.AliasNum, o.AliasDen = 1, 4
@@ -598,6 +648,10 @@ func run(raw json.RawMessage) driver.Result {
 	var val reflect.Value
 	if err1 == nil && !panic1 {
 		val, err1, panic1 = valueSafe(src, PT)
+	}
+	if err1 == nil && !panic1 && hasHugeFloat(val) {
+		// e.g. 1e39 given to a float64 leaf: in range, but beyond the value printer's fixed-point form
+		return driver.Result{Coq: "FlagSkip", Kind: "skipped-huge-float"}
 	}
 	okTerm := ""
 	stackTerm := "(Err 0)"
